@@ -192,6 +192,26 @@ def build_ops(seed, tier, d, drv):
         m = suitio.model_create(drv, fdesc, ff)
         ops.append({"id": "fixed" + tag, "kind": "create", "desc": fdesc})
         expect["fixed" + tag] = ref(m, "fixed" + tag)
+    # one mapping of a description referenced from two places (YAML writes an anchor and an alias for a shared object; JSON writes it twice): the two
+    # renderings are one description - e.g. one {file: ...} source under two digest algorithms (C18-t)
+    dd = os.path.join(d, "fixedA")
+    shared_src = {"file": os.path.join(dd, "fw.bin")}
+    sdesc = {"SUIT_Envelope_Tagged": {
+        "suit-authentication-wrapper": {"SuitDigest": {"suit-digest-algorithm-id": "cose-alg-sha-256"}},
+        "suit-manifest": {"suit-manifest-version": 1, "suit-manifest-sequence-number": 1,
+                          "suit-validate": [{"suit-directive-override-parameters": {
+                              "suit-parameter-image-digest": {"suit-digest-algorithm-id": "cose-alg-sha-256", "suit-digest-bytes": shared_src}}}],
+                          "suit-install": [{"suit-directive-override-parameters": {
+                              "suit-parameter-image-digest": {"suit-digest-algorithm-id": "cose-alg-sha-512", "suit-digest-bytes": shared_src},
+                              "suit-parameter-image-size": shared_src}}]}}}
+    sp_y, sp_j = os.path.join(files_dir, "shared.yaml"), os.path.join(files_dir, "shared.json")
+    yaml.dump(sdesc, open(sp_y, "w"), sort_keys=False)
+    json.dump(sdesc, open(sp_j, "w"))
+    if "&id" in open(sp_y).read():
+        ms = suitio.model_create(drv, json.loads(json.dumps(sdesc)), {os.path.join(dd, "fw.bin"): open(os.path.join(dd, "fw.bin"), "rb").read()})
+        for oid, pth in (("sharedyaml", sp_y), ("sharedjson", sp_j)):
+            ops.append({"id": oid, "kind": "create_file", "path": pth})
+            expect[oid] = ref(ms, oid)
     # the same *relative* spelling of the file names in three working directories, and one absolute path whose content is rewritten
     # before each operation (a result remembered under the spelling of a path would be stale)
     def small_desc(fw, dg, sz):
